@@ -1,4 +1,5 @@
 import Syzgy.Lemmas.LshInv
+import Syzgy.Lemmas.LshRadius
 /-!
 # C05 — the ANN index refers to exactly the live documents
 
@@ -107,5 +108,22 @@ example : TreeInv (fun _ v => decide (v > 5)) (fun i => if i = 1 then some 3 els
   · intro i hi; simp [Tree.ids] at hi; subst hi; exact ⟨3, by simp, by decide⟩
   · intro i hi; simp [Tree.ids] at hi; subst hi; exact ⟨9, by simp, by decide⟩
   · intro i hi; simp at hi; rcases hi with rfl | rfl <;> simp
+
+
+/-- **Covering-radius completeness.** If every listed id is live and within the radius of the query (the
+    radius covers the collection) and, at every node, the hyperplane lies within the radius (always so
+    for the cosine metric with radius 1, where hyperplane distances are at most 0.5) or far-side
+    documents are at least the hyperplane's distance away (`C05.far_side_geometry` for the
+    Euclidean metric), then the default-precision radius search returns every listed document that
+    passes the filter — for every forest shape, `search_k > 0` and K. Together with `TreeInv` (listed
+    ids = live ids) and `C04.lsh_sound` (each once, sorted, true distances) this is the observable
+    consequence stated in the property. -/
+theorem covering_radius_complete (searchK K R maxRadius : Nat) (hR : 0 < R) (hsK : 0 < searchK) (forest : List Tree)
+    (lookup : Nat → Option Cand) (hpDist : H → Nat) (hpRight : H → Bool)
+    (hlive : ∀ t ∈ forest, ∀ id ∈ t.ids, ∃ c, lookup id = some c ∧ c.dist ≤ R)
+    (hgeo : ∀ t ∈ forest, FarSound R lookup hpDist hpRight t) :
+    ∀ t ∈ forest, ∀ id ∈ t.ids, ∀ c, lookup id = some c → c.acc = true →
+      c ∈ (search searchK K R maxRadius forest lookup hpDist hpRight).1 :=
+  radius_complete searchK K R maxRadius hR hsK forest lookup hpDist hpRight hlive hgeo
 
 end Syzgy.C05
